@@ -182,20 +182,36 @@ C18_SPEC = dict(
          "object sources: constructors, create() (list/tuple), load() of jaspar/jaspar16/transfac from a file object or "
          "a path (Motif.counts/.pwm/.pssm, reference from the lmcore oracle), reverse_complement(), copy()/copy.copy(), "
          "score_distribution; StripedSequence histories interleave calculate(), copies, new live Scanners and next() on "
-         "them between views; for StripedSequence additionally (cls=alloc) the buffer address "
-         "before/after each calculate() while a view stays exported (never read), against the capacity model "
-         "(view_dangling); compared with the logical contents computed from the constructor "
-         "inputs by the extracted checker check_C18 (PROPFAIL) and with the extracted model of lib.rs (DIFF). "
+         "them between views; a view can be kept exported across the following reconfigurations (op h; 50 % of the generated "
+         "striped cases, corpus/C18/held.txt) and is observed again after each of them while the buffer has not moved (a moved "
+         "buffer is F24 and is never read); for StripedSequence additionally (cls=alloc) the buffer address "
+         "before/after each calculate() while a view stays exported (never read): PROPFAIL is the extracted check_alloc "
+         "(C18_check_alloc_sound_complete: the buffer of a non-empty sequence never moves while the view is exported); a move "
+         "the capacity model (model_moves = view_dangling per step) does not predict is a PROPFAIL with its own detail, not "
+         "matched by the F24 signature; unobservable addresses give DIFF buffer-address-not-observable; compared with the "
+         "logical contents computed from the constructor "
+         "inputs by the extracted checker check_C18 (PROPFAIL) and with the extracted model of lib.rs (DIFF); a reference "
+         "object of the harness that is not well formed (lobj_wfb, C18_reference_object_wf_decided) is a DIFF driver-error. "
+         "For StripedScores the whole rows x 32 view is compared, including the cells at positions >= len() "
+         "(C18_scores_view_cells_named). 22 theorems in C18.v. "
          "Non-trivial: distinct objects with >= 2 rows / elements (matrix classes have 5 or 21 columns: row stride 8 "
          "or 24 elements), striped objects with more than 32 positions, striped sequences with a view before and after "
          "a reconfiguration.",
     trusted_base=[
-        "Coq 8.16.1 kernel (coqc); vm_compute only in the Example / _refuted lemmas; no native_compute",
-        "extraction: ExtrOcamlBasic only (nat, Z, positive, list, option kept as extracted inductives); OCaml 4.13.1",
-        "hand-written OCaml driver ocaml/pyidx/driver.ml (parsing, locating the failing part by re-running the extracted checker, comparison with the model)",
-        "python harness pyharness/py/c18_driver.py run by lmpy (pyharness/src, owned by C17): generator, and the reference "
+        "Coq 8.16.1 kernel (coqc); vm_compute only in the Example / _refuted lemmas of C18.v; no native_compute",
+        "extraction: ExtrOcamlBasic only (its Extract Inductive directives for bool, option, list, prod, unit, sumbool, sumor); "
+        "no other Extract Inductive, no Extract Constant (nat, Z, positive kept as extracted inductives); OCaml 4.13.1",
+        "hand-written OCaml driver ocaml/pyidx/driver.ml (parsing, locating the failing part by re-running the parts of the "
+        "extracted checker, comparison with the model). No PROPFAIL of the driver is decided by hand: object cases are PROPFAIL "
+        "iff the extracted check_C18 = false (check_C18_sound); cls=alloc: PROPFAIL is the extracted check_alloc, the extracted "
+        "model_moves / alloc_steps only word the detail (F24 signature or `although the new row count fits the capacity`)",
+        "hand-written PROPFAIL outside the driver: the sub-process probe of F24 (props/c18.py stale_probe running "
+        "pyharness/py/c18_stale.py: a view read after calculate() that moved / changed, a fresh view that differs, or a crash of "
+        "the probe => PROPFAIL, identified by its call sequence = known finding F24)",
+        "python harness pyharness/py/c18_driver.py run by lmpy (pyharness/src/main.rs, owned by C17): generator, and the reference "
         "contents computed from constructor inputs (symbol tables of abc.rs; f32 re-computation of to_freq/to_weight; exact "
-        "dyadic scores; f64 re-computation of ScoreDistribution::from — as repaired by 4832e71/d6e308b/5ab0464 — in the code's order of operations)",
+        "dyadic scores; all rows*32 reference cells of a StripedScores from wildcard-continued windows (scores_logical); f64 "
+        "re-computation of ScoreDistribution::from — as repaired by 4832e71/d6e308b/5ab0464 — in the code's order of operations)",
         "pyharness/src/lmcore.rs (C17's core-library oracle) for the weights / log-odds of Motif objects built by create()/load(); "
         "ctypes.pythonapi.PyObject_GetBuffer / PyBuffer_Release for raw buffer requests and buffer addresses",
         "CPython 3.11 memoryview (tolist/tobytes/element access follow shape/strides/format of the exported Py_buffer) and "
@@ -209,6 +225,19 @@ C18_SPEC = dict(
         "a Vec / DenseMatrix never holds more than isize::MAX elements (hypothesis `llen <= ssize_max` of the index theorems)",
         "x86-64 build: 32 columns (AVX2 lanes) and 32-byte row alignment; element sizes u8=1, u32=4, f32=4, f64=8",
         "padding cells hold arbitrary values (the view theorems quantify over every storage that represents the table)",
+        "a StripedScores view shows the whole rows x 32 score matrix: the rows*32 - len() cells at positions >= len() are not "
+        "logical scores (obj[i] raises IndexError there); they hold the scores of windows that run into the wildcard "
+        "continuation of the sequence - deterministic, computed by the harness reference and compared on every run; "
+        "C18_scores_view_cells_named (1 <= M <= L <= rows*32; exactly rows*32 - len() >= M-1 such cells)",
+        "views that are still exported while the sequence is reused: valid and showing the logical symbols only while the reuse "
+        "stays within the capacity stripe() reserved (C18_stale_view_reads_logical_within_capacity: same descriptor, old "
+        "descriptor reads the logical cells of the reconfigured object; C18_descriptor_is_history_independent); beyond it the "
+        "exported pointer dangles - known finding F24, C18_stale_view_refuted (reproduced by the cls=alloc cases of "
+        "corpus/C18/boundary.txt and the probe c18_stale.py)",
+        "single-threaded: no outstanding PyRef borrow at export time (the 2-D __getbuffer__ take PyRefMut; with a borrow held by "
+        "another thread - calculate() releases the GIL - memoryview(obj) raises RuntimeError instead of exporting)",
+        "StripedSequence and ScoreDistribution define no __len__ / __getitem__ (GenSlots: gen_has_len / gen_has_getitem = false): "
+        "the index clause of the property is vacuous for them, only the view clause is checked",
     ],
 )
 
